@@ -24,6 +24,8 @@ var c19Tokens = []string{
 }
 
 var c19Seeds = []string{
+	// include cycles (fz is the name of the fuzzed include file itself; ping and pong include each other)
+	"##!> include fz\n", "a\n##!> include fz\nb\n", "##!> include ping\n", "##!> include-except ping pong\n", "##!> include-except fz fz\n", "##!> assemble\n##!> include pong\n##!<\n",
 	// processor start lines with missing or odd arguments
 	"##!> cmdline\nls\n##!<\n", "##!> cmdline UNIX\nls\n##!<\n", "##!> cmdline 1\n", "##!>cmdline\n", "##!> cmdline  \nls\n", "##!> assemble x\na\n##!<\n", "##!> assemble\n##!> cmdline\n", "##!> define\n", "##!> define x\n", "##!> include-except x\n", "##!>\n", "##!> \n", "##!> cmdline unix windows\nls\n##!<\n",
 	// a flag group that the clean-up removes, followed by an escaped look-alike further right
@@ -72,6 +74,8 @@ func c19Check(env *core.Env, cc core.Case) core.Verdict {
 		"regex-assembly/include/a.ra":    "fromfilea\n",
 		"regex-assembly/include/name.ra": "fromfilename\n",
 		"regex-assembly/exclude/b.ra":    "fromfileb\n",
+		"regex-assembly/include/ping.ra": "pingword\n##!> include pong\n",
+		"regex-assembly/include/pong.ra": "##!> include ping\npongword\n",
 	}
 	type inv struct {
 		args  []string
